@@ -3,6 +3,7 @@ import SppModel.Generated.LoopKernels
 import SppModel.Generated.MomentKernels
 import SppModel.Generated.BlockKernels
 import SppModel.Generated.SigprocCodec
+import SppModel.Generated.StatsLane
 /-!
 Line-protocol driver for the executable model (`lake env lean --run Driver.lean`).
 One request per line on stdin, one answer per line on stdout.  Unknown or
@@ -611,10 +612,40 @@ def stepC15 (ts : List String) : String :=
         else if m == "gapper" then some (Robust.gapper c1)
         else if m == "var" then some Robust.variance
         else none
+      -- the same estimator as translated from `core/stats.py` on this run (normalising constants baked in from the
+      -- source literals; irrational ones taken from the request), applied through the translated `apply_along_axes`
+      let gen : Option (List Rat → Rat) :=
+        if m == "median" then some Np.median
+        else if m == "mean" then some Np.mean
+        else if m == "iqr" then some Generated.StatsLane._scale_iqr
+        else if m == "mad" then some (Generated.StatsLane._scale_mad c2)
+        else if m == "qn" then some Generated.StatsLane._scale_qn_1d
+        else if m == "sn" then some Generated.StatsLane._scale_sn_1d
+        else if m == "gapper" then some (Generated.StatsLane._scale_gapper_1d c1)
+        else none
       match est with
-      | some e => s!"ok {showRats (Robust.alongAxis e mat axis)}"
+      | some e =>
+        let hand := Robust.alongAxis e mat axis
+        let tag := match gen with
+          | some g => if Generated.StatsLane.alongAxes g mat axis == hand then " | gen ok same" else " | gen ok diff"
+          | none => ""
+        s!"ok {showRats hand}" ++ tag
       | none => "bad-op"
     | _, _, _, _, _ => "bad-op"
+  | "dmad" :: c2 :: rows :: cols :: ax :: rest =>
+    -- `_scale_doublemad` (translated source only: there is no hand model of it) per lane, scattered back to the
+    -- layout of the input, row-major
+    match rat? c2, rows.toNat?, cols.toNat?, ratList? rest with
+    | some c2, some rows, some cols, some xs =>
+      if xs.length ≠ rows * cols then "bad-op" else
+      let mat := (List.range rows).map (fun i => (xs.drop (i * cols)).take cols)
+      let f := Generated.StatsLane._scale_doublemad c2
+      if ax == "n" then s!"ok {showRats (f xs)}"
+      else if ax == "1" then s!"ok {showRats (mat.flatMap f)}"
+      else
+        let colsOut := (Np.lanesAxis0 mat).map f
+        s!"ok {showRats ((List.range rows).flatMap (fun i => colsOut.map (fun c => c.getD i 0)))}"
+    | _, _, _, _ => "bad-op"
   | "z" :: loc :: sc :: rest =>
     match rat? loc, rat? sc, ratList? rest with
     | some loc, some sc, some xs => s!"ok {showRats (Robust.zscore loc sc xs)}"
